@@ -505,6 +505,9 @@ impl<I: Interner> RenderAsRust<I> for FnDefDatum<I> {
         // declaration
         // fn foo<T>(arg: u32, arg2: T) -> Result<T> where T: Bar
         // ^^^^^^
+        if self.sig.safety == chalk_ir::Safety::Unsafe {
+            write!(f, "unsafe ")?;
+        }
         write!(f, "fn {}", s.db().fn_def_name(self.id))?;
 
         // binders
@@ -525,6 +528,14 @@ impl<I: Interner> RenderAsRust<I> for FnDefDatum<I> {
                 .iter()
                 .enumerate()
                 .map(|(idx, arg)| format!("arg_{}: {}", idx, arg.display(s)))
+                .chain(if self.sig.variadic {
+                    Some(format!(
+                        "arg_{}: ...",
+                        inputs_and_output.argument_types.len()
+                    ))
+                } else {
+                    None
+                })
                 .format(", ");
 
             write!(f, "({})", arguments)?;
